@@ -23,7 +23,10 @@ func (Engine) Name() string { return "multi" }
 var universe = []struct {
 	backend uint32
 	id      string
-}{{0, "a"}, {0, "b"}, {1, "a"}, {1, "b"}, {2, "a"}, {2, "c"}}
+}{{0, "a"}, {0, "b"}, {1, "a"}, {1, "b"}, {2, "a"}, {2, "c"},
+	// raw-byte ids that differ from another ledger's only by a leading or
+	// trailing byte which text handling would treat as white space
+	{0, "a\n"}, {2, " c"}}
 
 const (
 	maxAssets = 6
